@@ -94,15 +94,17 @@ async def run_partition(acc, clock, stream, frames, cuts, garb_regions, cid, sid
             return "cut-inside-beginstring-marker"
         ends = {st: st + len(fb) for st, (_, fb) in zip(starts, frames)}
         for (g0, g1) in garb_regions:
+            # is there a read that contains both the end of the preceding frame and garbage bytes?
+            if g0 > 0 and g0 not in cuts:
+                return "garbage-after-frame-in-same-buffer"
+        # (repaired in the repository by ed230f5; judged after the listed mechanisms so that a history that also has their geometry is
+        # attributed to them, and one that has only this geometry is reported under this key if the defect ever returns)
+        for (g0, g1) in garb_regions:
             if g1 in ends:
                 a = max([0] + [c for c in cuts if c <= g1])
                 junk = g1 - max(a, g0)
                 if junk > 0 and any(g1 < c < ends[g1] and ends[g1] - c <= junk for c in cuts):
                     return "junk-before-partial-frame-judged-complete"
-        for (g0, g1) in garb_regions:
-            # is there a read that contains both the end of the preceding frame and garbage bytes?
-            if g0 > 0 and g0 not in cuts:
-                return "garbage-after-frame-in-same-buffer"
         return default
 
     try:
